@@ -1,7 +1,7 @@
 SPECIFICATION Spec
 CONSTANTS
   Spellings = {"a", "A", "b", "C"}
-  Values = {1, 2}
+  Values = {1, 2, 3}
   MaxTotal = 4
   MaxSteps = 60
   Preds = {"v1", "notv1", "ka", "none"}
